@@ -8,7 +8,14 @@ package main
 //   num gint <op> <t> <hex> <t> <hex>                -> <t> <hex> | err | panic IntegerDo called directly
 // The g-ops are answered on the Lean side by the functions TRANSLATED from the Go source
 // (Generated/NumGo.lean): they validate the translator extract/ex_numtrans.go.
-// t: i int64, u uint64, c rune, f float64 (IEEE bits), b bool (g-ops only). fn = the builtin called directly
+//   num same <route> <op> <t> <hex>                  -> as cmp / ar / gcmp / gar / gint
+// `same`: BOTH operands are THE SAME OBJECT (every Sexp is a pointer). The answer must depend on
+// the two values only (Spec/MathOrder.lean compare_is_value_level): NaN is unequal to itself
+// even when "itself" is one object. Routes: api = (*Zlisp).Compare(v, v) [op cmp3: -1|0|1|nan],
+// NumericDo(op, v, v), IntegerDo(op, v, v); fn = the builtin called with args [v, v];
+// var = (op x x); let = (let [v x] (op v v)); param = ((fn [p q] (op p q)) x x);
+// self = ((fn [v] (op v v)) x); arr = (let [a (array x)] (op (aget a 0) (aget a 0))).
+// t: i int64, u uint64, c rune, f float64 (IEEE bits), b bool (g-ops and same api only). fn = the builtin called directly
 // (a Go panic is observed as such); ev = through EvalString with the operands bound as
 // globals (the builtin-call wrapper's recover turns the panic into an error).
 
@@ -139,8 +146,87 @@ func numExecGen(toks []string) (ans string) {
 	return "bad-op"
 }
 
+var sameScripts = map[string]string{
+	"var":   "(%s zz0 zz0) ",
+	"let":   "(let [v zz0] (%s v v)) ",
+	"param": "((fn [p q] (%s p q)) zz0 zz0) ",
+	"self":  "((fn [v] (%s v v)) zz0) ",
+	"arr":   "(let [a (array zz0)] (%s (aget a 0) (aget a 0))) ",
+}
+var sameScriptRoutes = []string{"var", "let", "param", "self", "arr"}
+
+// numExecSame: one object used as both operands.
+func numExecSame(toks []string) (ans string) {
+	if len(toks) != 5 {
+		return "bad-op"
+	}
+	route, op := toks[1], toks[2]
+	b, err := strconv.ParseUint(toks[4], 16, 64)
+	if err != nil || !strings.Contains("iucfb", toks[3]) || len(toks[3]) != 1 {
+		return "bad-op"
+	}
+	v := numVal{toks[3], b}.sexp()
+	defer func() {
+		if r := recover(); r != nil {
+			ans = "panic"
+		}
+	}()
+	switch route {
+	case "api":
+		if op == "cmp3" {
+			r, err := numEnv.Compare(v, v)
+			if err != nil {
+				return "err"
+			}
+			if r > 1 {
+				return "nan"
+			}
+			return strconv.Itoa(r)
+		}
+		if o, ok := numericOps[op]; ok {
+			r, err := zygo.NumericDo(o, v, v)
+			if err != nil {
+				return "err"
+			}
+			return showNum(r)
+		}
+		if o, ok := integerOps[op]; ok {
+			r, err := zygo.IntegerDo(o, v, v)
+			if err != nil {
+				return "err"
+			}
+			return showNum(r)
+		}
+		return "bad-op"
+	case "fn":
+		f, ok := numFuncs[op]
+		if !ok {
+			return "bad-op"
+		}
+		res, err := f(numEnv, op, []zygo.Sexp{v, v})
+		if err != nil {
+			return "err"
+		}
+		return showNum(res)
+	}
+	tmpl, ok := sameScripts[route]
+	if !ok {
+		return "bad-op"
+	}
+	numEnv.AddGlobal("zz0", v)
+	res, err := numEnv.EvalString(fmt.Sprintf(tmpl, op))
+	if err != nil {
+		numEnv.Clear()
+		return "err"
+	}
+	return showNum(res)
+}
+
 func numExec(toks []string) (ans string) {
 	numSetup()
+	if len(toks) > 0 && toks[0] == "same" {
+		return numExecSame(toks)
+	}
 	if len(toks) > 0 && (toks[0] == "gcmp" || toks[0] == "gar" || toks[0] == "gint") {
 		return numExecGen(toks)
 	}
@@ -270,6 +356,29 @@ func numGen(g *Gen) {
 			g.Count("gen-grid-pair " + a.t + b.t)
 		}
 	}
+	// shared operands: one object on both sides, every operator x every grid value x every route
+	for _, v := range ggrid {
+		g.Emit("same api cmp3 %s", v)
+		for _, op := range arOps[:4] {
+			g.Emit("same api %s %s", op, v)
+		}
+		for _, op := range integerOpNames {
+			g.Emit("same api %s %s", op, v)
+		}
+		g.Count("same api")
+		if v.t == "b" {
+			continue
+		}
+		for _, route := range append([]string{"fn"}, sameScriptRoutes...) {
+			for _, op := range cmpOps {
+				g.Emit("same %s %s %s", route, op, v)
+			}
+			for _, op := range arOps {
+				g.Emit("same %s %s %s", route, op, v)
+			}
+			g.Count("same " + route)
+		}
+	}
 	nEv, nRand := 3000, 20000
 	if g.Thorough() {
 		nEv, nRand = 60000, 600000
@@ -312,6 +421,23 @@ func numGen(g *Gen) {
 			g.Emit("gint %s %s %s", integerOpNames[g.Rng.Intn(len(integerOpNames))], a, b)
 		}
 		g.Count("gen-rand-pair " + a.t + b.t)
+		// and a random value against itself (same object)
+		if g.Rng.Intn(4) == 0 {
+			routes := append([]string{"api", "fn", "fn"}, sameScriptRoutes...)
+			route := routes[g.Rng.Intn(len(routes))]
+			var op string
+			switch {
+			case route == "api":
+				ops := append(append([]string{"cmp3"}, arOps[:4]...), integerOpNames...)
+				op = ops[g.Rng.Intn(len(ops))]
+			case g.Rng.Intn(2) == 0:
+				op = cmpOps[g.Rng.Intn(len(cmpOps))]
+			default:
+				op = arOps[g.Rng.Intn(len(arOps))]
+			}
+			g.Emit("same %s %s %s", route, op, a)
+			g.Count("same-rand " + route)
+		}
 	}
 }
 
